@@ -3,6 +3,7 @@ package main
 // Ground instantiation of quantified hypotheses (E-matching done by us), used
 // to obtain quantifier-free queries on which solvers can return models.
 
+import "strings"
 
 func (c *Ctx) hasQuant(t *Term, memo map[*Term]bool) bool {
 	if v, ok := memo[t]; ok {
@@ -181,6 +182,47 @@ func (c *Ctx) splitFormula(h *Term, guard *Term, memoQ map[*Term]bool, qf *[]*Te
 			g = c.And(guard, g)
 		}
 		c.splitFormula(h.args[1], g, memoQ, qf, qs, dropped)
+	case h.op == "not" && h.args[0].op == "forall":
+		// skolemise: not (forall v. B)  ==>  not B[v := fresh constants]
+		q := h.args[0]
+		n := qnvars[q]
+		m := map[*Term]*Term{}
+		for _, v := range q.args[:n] {
+			m[v] = c.Fresh("sk_"+strings.SplitN(v.op, "?", 2)[0], v.sort)
+		}
+		c.splitFormula(c.Not(c.subst(q.args[n], m, map[*Term]*Term{})), guard, memoQ, qf, qs, dropped)
+	case h.op == "not" && h.args[0].op == "and":
+		// a disjunction of negations: keep as one formula if quantifier-free after skolemising each part
+		var parts []*Term
+		okAll := true
+		for _, a := range h.args[0].args {
+			na := c.Not(a)
+			if c.hasQuant(na, memoQ) {
+				if na.op == "not" && na.args[0].op == "forall" {
+					q := na.args[0]
+					n := qnvars[q]
+					m := map[*Term]*Term{}
+					for _, v := range q.args[:n] {
+						m[v] = c.Fresh("sk_"+strings.SplitN(v.op, "?", 2)[0], v.sort)
+					}
+					na = c.Not(c.subst(q.args[n], m, map[*Term]*Term{}))
+				}
+				if c.hasQuant(na, map[*Term]bool{}) {
+					okAll = false
+					break
+				}
+			}
+			parts = append(parts, na)
+		}
+		if !okAll {
+			*dropped++
+			return
+		}
+		d := c.Or(parts...)
+		if guard != nil {
+			d = c.Implies(guard, d)
+		}
+		*qf = append(*qf, d)
 	case h.op == "not" && h.args[0].op == "=>":
 		c.splitFormula(h.args[0].args[0], guard, memoQ, qf, qs, dropped)
 		c.splitFormula(c.Not(h.args[0].args[1]), guard, memoQ, qf, qs, dropped)
@@ -212,11 +254,70 @@ func (c *Ctx) groundInstances(hyps []*Term, goal *Term, rounds int) (qf []*Term,
 	}
 	c.splitFormula(c.Not(goal), nil, memoQ, &qf, &quants, &dropped)
 	done := map[[3]int]bool{}
+	rowDone := map[*Term]bool{}
 	for r := 0; r < rounds; r++ {
 		seen := map[*Term]bool{}
 		var ground []*Term
 		for _, h := range qf {
 			collectSub(h, seen, &ground)
+		}
+		// read-over-write instances: select(store(a,i,v),j) = ite(i=j, v, select(a,j)). They are valid
+		// array axioms; adding them makes select(a,j) a ground term that quantified hypotheses about
+		// the array before the write can be matched against.
+		rowAdded := 0
+		for _, g := range ground {
+			if g.op != "select" || len(g.args) != 2 {
+				continue
+			}
+			a, j := g.args[0], g.args[1]
+			for depth := 0; depth < 4 && a.op == "store" && len(a.args) == 3; depth++ {
+				inner := c.mk("select", g.sort, a.args[0], j)
+				fact := c.mk("=", SBool, c.mk("select", g.sort, a, j), c.mk("ite", g.sort, c.mk("=", SBool, a.args[1], j), a.args[2], inner))
+				if !rowDone[fact] {
+					rowDone[fact] = true
+					qf = append(qf, fact)
+					rowAdded++
+					if !seen[inner] {
+						seen[inner] = true
+						ground = append(ground, inner)
+					}
+				}
+				a = a.args[0]
+			}
+		}
+		if c.seedSmall && r == 0 {
+			// small-scope seeding (model extraction only): every spec-function application also
+			// stands for its variants with small integer literals in its integer argument
+			// positions, so that recursively defined spec functions are unfolded from 0 upwards
+			var extra []*Term
+			for _, g := range ground {
+				if !strings.HasPrefix(g.op, "spec_") {
+					continue
+				}
+				for i, a := range g.args {
+					if a.sort != c.IntSort() {
+						continue
+					}
+					// sequence arguments are (content, off, len): only seed arguments that are not
+					// immediately preceded by an array argument's offset/length pair
+					if i >= 1 && strings.HasPrefix(string(g.args[i-1].sort), "(Array") {
+						continue
+					}
+					if i >= 2 && strings.HasPrefix(string(g.args[i-2].sort), "(Array") {
+						continue
+					}
+					for lit := int64(0); lit <= 8; lit++ {
+						na := append([]*Term{}, g.args...)
+						na[i] = c.Int(lit)
+						t := c.mk(g.op, g.sort, na...)
+						if !seen[t] {
+							seen[t] = true
+							extra = append(extra, t)
+						}
+					}
+				}
+			}
+			ground = append(ground, extra...)
 		}
 		byOp := map[string][]*Term{}
 		for _, g := range ground {
